@@ -314,3 +314,51 @@ prop('C17',
      level_note='Trusted: Lean kernel, standard axioms, harness (its own inliner). Modelled not verified: the grammar-of-grammars parser, file lookup.',
      technique='Lean 4 renaming-invariance and injectivity proofs + differential testing of import/override/extend/template against hand-inlined grammars',
      design_ref='DESIGN.md §5 C17')
+
+prop('C04',
+     modules=['LarkVerif.Earley', 'LarkVerif.Forest', 'LarkVerif.Priority', 'LarkVerif.Shape', 'LarkVerif.Props.C04', 'LarkVerif.Props.C03'],
+     theorems=['Props.C04.every_derivation_is_in_the_forest', 'Props.C04.every_parse_is_in_the_forest', 'Props.C04.alternatives_append', 'Props.C04.children_multiply', 'Props.C03.built_tree_is_documented_shaping'],
+     fingerprints=['lark/parsers/earley.py:Parser.predict_and_complete', 'lark/parsers/earley.py:Parser._parse', 'lark/parsers/xearley.py:Parser._parse', 'lark/parsers/earley_forest.py:ForestVisitor.visit', 'lark/parsers/earley_forest.py:ForestToParseTree.visit_packed_node_in', 'lark/parsers/earley_forest.py:PackedNode.sort_key', 'lark/parsers/earley_forest.py:PackedNode.__eq__', 'lark/parsers/earley_forest.py:PackedNode.__init__', 'lark/parsers/earley_forest.py:SymbolNode.add_family', 'lark/parsers/earley_forest.py:SymbolNode.is_ambiguous', 'lark/parsers/earley_forest.py:ForestToParseTree.on_cycle', 'lark/parsers/earley_forest.py:ForestSumVisitor.visit_packed_node_out', 'lark/parsers/earley_forest.py:ForestSumVisitor.visit_symbol_node_out', 'lark/visitors.py:CollapseAmbiguities.__default__'],
+     rule='random ambiguous grammars (2-4 rules incl. inlined and ?-rules, aliases, x?, empty alternatives, unit cycles) over single-character terminals with blank ignored x {basic, dynamic, dynamic_complete} x maybe_placeholders; '
+          'texts sampled from the rules plus random ones. For acyclic grammars ALL derivations of the token string are enumerated by an independent brute-force oracle over lark\'s compiled rules (capped at 200), each is shaped by the '
+          'Lean buildList, and the set must equal the set obtained by expanding the _ambig nodes of the explicit-ambiguity result (own expander) and by CollapseAmbiguities; accept/reject must agree. For cyclic grammars the parse must terminate. '
+          'Non-trivial = more than one derivation, or a cyclic grammar; distinct by canonical hash.',
+     not_proved=['soundness of the forest (every encoded tree is a derivation) and the AmbiguousExpander/AmbiguousIntermediateExpander lifting are compared against the brute-force enumeration, not proved',
+                 'intra-terminal ambiguity under dynamic_complete is not generated (single-character terminals)', 'for cyclic grammars only termination is observed'],
+     assumptions=['the brute-force enumerator (Python, oracle_derivs.py) is an independent oracle, not part of the proof chain'],
+     level_text='Theorems: every derivation of the input has all its dotted positions among the chart facts, i.e. every node and packed family of every derivation is in the forest (completeness, for all grammars and lattices); the shaped tree of a '
+                'derivation is the documented shaping (C03). The explicit-ambiguity result is compared with the Lean-shaped brute-force derivation set.',
+     level_note='Trusted: Lean kernel, standard axioms, harness, the Python enumeration oracle for the per-case comparison.',
+     technique='Lean 4 forest-completeness proof + Lean-shaped brute-force derivation sets compared with expanded _ambig results',
+     design_ref='DESIGN.md §5 C04')
+prop('C05',
+     modules=['LarkVerif.Priority', 'LarkVerif.Props.C05', 'LarkVerif.Extracted'],
+     theorems=['Props.C05.forest_walk_is_max_over_derivations', 'Props.C05.no_derivation_beats_the_root', 'Props.C05.invert_is_min', 'Props.C05.derivs_negate', 'Props.C05.packed_sort_key_is_documented'],
+     fingerprints=['lark/parsers/earley.py:Parser.predict_and_complete', 'lark/parsers/earley.py:Parser._parse', 'lark/parsers/xearley.py:Parser._parse', 'lark/parsers/earley_forest.py:ForestVisitor.visit', 'lark/parsers/earley_forest.py:ForestToParseTree.visit_packed_node_in', 'lark/parsers/earley_forest.py:PackedNode.sort_key', 'lark/parsers/earley_forest.py:PackedNode.__eq__', 'lark/parsers/earley_forest.py:PackedNode.__init__', 'lark/parsers/earley_forest.py:SymbolNode.add_family', 'lark/parsers/earley_forest.py:SymbolNode.is_ambiguous', 'lark/parsers/earley_forest.py:ForestToParseTree.on_cycle', 'lark/parsers/earley_forest.py:ForestSumVisitor.visit_packed_node_out', 'lark/parsers/earley_forest.py:ForestSumVisitor.visit_symbol_node_out', 'lark/visitors.py:CollapseAmbiguities.__default__'] + ['lark/lark.py:Lark.__init__'],
+     rule='random prioritised ambiguous grammars (rule priorities -2..3, terminal priorities, inlined/?-rules, empty alternatives) x {basic, dynamic, dynamic_complete} x priority in {normal, invert, None}: the derivation the real parser '
+          'chose (recovered with raw builders) must be one of the brute-force derivations, and for grammars without directly empty alternatives its total priority (rule priorities as written, plus terminal priorities under the dynamic lexers) '
+          'must be the maximum (minimum under invert) over all derivations; the real SPPF is exported (tree-unfolded, with ForestSumVisitor\'s weights) and its root priority compared with the Lean prio and best(derivs); a batch of '
+          'parses is repeated in subprocesses under 3 (thorough: 12) PYTHONHASHSEED values and must be byte-identical. Non-trivial = more than one derivation; distinct by canonical hash.',
+     not_proved=['the choice function of ForestToParseTree (first family in sort order) and its agreement with the DP value is compared per case, not proved', 'the empty-alternative precedence clause is not checked beyond "the result is a derivation"',
+                 'independence from hash order is sampled across PYTHONHASHSEED values (Lean cannot exhibit CPython set iteration order)', 'cyclic grammars: optimality not claimed'],
+     assumptions=['acyclic grammars without directly empty alternatives for the optimality clause'],
+     level_text='Theorems: the bottom-up forest walk computes, for every node, the maximum total priority over all derivations below it; no derivation beats the root value; with negated weights (invert) it is the minimum; the alternative sort key in the '
+                'source is (is_empty, -priority, rule order). The Lean prio runs on the exported real forests; the chosen derivation is compared with the brute-force optimum.',
+     level_note='Trusted: Lean kernel, standard axioms, extractor, harness, the Python enumeration oracle. Modelled not verified: CPython hash order.',
+     technique='Lean 4 max/sum dynamic-programming proof over AND-OR forests + export of the real SPPF + brute-force optimum + multi-hash-seed determinism runs',
+     design_ref='DESIGN.md §5 C05')
+prop('C20',
+     modules=['LarkVerif.Earley', 'LarkVerif.Forest', 'LarkVerif.Priority', 'LarkVerif.Props.C04'],
+     theorems=['Props.C04.every_derivation_is_in_the_forest', 'Props.C04.every_parse_is_in_the_forest', 'Props.C04.alternatives_append', 'Props.C04.children_multiply'],
+     fingerprints=['lark/parsers/earley.py:Parser.predict_and_complete', 'lark/parsers/earley.py:Parser._parse', 'lark/parsers/xearley.py:Parser._parse', 'lark/parsers/earley_forest.py:ForestVisitor.visit', 'lark/parsers/earley_forest.py:ForestToParseTree.visit_packed_node_in', 'lark/parsers/earley_forest.py:PackedNode.sort_key', 'lark/parsers/earley_forest.py:PackedNode.__eq__', 'lark/parsers/earley_forest.py:PackedNode.__init__', 'lark/parsers/earley_forest.py:SymbolNode.add_family', 'lark/parsers/earley_forest.py:SymbolNode.is_ambiguous', 'lark/parsers/earley_forest.py:ForestToParseTree.on_cycle', 'lark/parsers/earley_forest.py:ForestSumVisitor.visit_packed_node_out', 'lark/parsers/earley_forest.py:ForestSumVisitor.visit_symbol_node_out', 'lark/visitors.py:CollapseAmbiguities.__default__'],
+     rule='random ambiguous/nullable/cyclic grammars x {basic, dynamic, dynamic_complete}: the forest root from ambiguity="forest" is transformed with TreeForestTransformer(resolve_ambiguity=False), the _ambig nodes expanded, and the set of '
+          'unshaped trees compared with the brute-force derivation set (none missing, none extra, none twice); resolve_ambiguity=True must give a member; is_ambiguous must be False for a single derivation; ForestVisitor (plain and '
+          'single_visit), ForestTransformer, ForestSumVisitor and both TreeForestTransformer settings must terminate on every forest including cyclic ones (8 s guard), with on_cycle counted. Non-trivial = more than one derivation or cyclic; '
+          'distinct by canonical hash.',
+     not_proved=['visitor termination (measure: nodes not yet visited + stack) is observed under a time guard, not proved', 'forest soundness is compared with the enumeration, not proved'],
+     assumptions=['the brute-force enumerator is an independent oracle'],
+     level_text='Theorem: every derivation of the input is present in the forest with all its nodes and packed families (completeness over the chart proved correct in C01). The real forest is expanded and compared with the brute-force '
+                'derivation set; all visitor/transformer classes are run on every forest.',
+     level_note='Trusted: Lean kernel, standard axioms, harness, the Python enumeration oracle.',
+     technique='Lean 4 forest-completeness proof + expansion of the real forest compared with brute-force derivations + visitor termination runs',
+     design_ref='DESIGN.md §5 C20')
